@@ -3,9 +3,9 @@
 package c13
 
 import (
-	"strings"
 	"bytes"
 	"fmt"
+	"strings"
 
 	"verifharness/core"
 	"verifharness/lsharness"
